@@ -18,6 +18,9 @@ def draw_cover_mesh(rng, mm):
     """A mesh whose cells strictly contain the cell centres of mesh mm (C02, source
     field on a different mesh): same cell, or 2x / 3x coarser on the same lattice."""
     ratio = rng.choice([1, 1, 2, 3])
+    same_n = rng.random() < 0.25  # a coarser mesh over a larger region with the SAME cell counts
+    if same_n:
+        ratio = rng.choice([2, 3])
     nd = mm.region.ndim
     p1, p2, n = [], [], []
     for k in range(nd):
@@ -25,6 +28,10 @@ def draw_cover_mesh(rng, mm):
         a = rng.randint(0, 2) * ratio
         tot = mm.n[k] + a
         extra = (-tot) % ratio + ratio * rng.randint(0, 1)
+        if same_n:
+            a = rng.randint(0, (ratio - 1) * mm.n[k] // ratio) * ratio if ratio * mm.n[k] > mm.n[k] else 0
+            a = min(a, (ratio - 1) * mm.n[k])
+            tot, extra = ratio * mm.n[k], 0
         tot += extra
         lo = float(mm.region.pmin[k]) - a * c
         p1.append(lo)
@@ -44,7 +51,7 @@ def draw_table(rng, dtype=None):
 
 def draw_spec(rng, st, mm, nvdim, dtype, allow_field=True, depth=0):
     kinds = ["const", "array", "array", "fn", "fn"]
-    if mm.subs and depth == 0 and dtype in (None, "float"):
+    if mm.subs and depth == 0:
         kinds += ["dict", "dict"]
     if allow_field and depth == 0:
         kinds += ["field"]
@@ -73,6 +80,11 @@ def draw_spec(rng, st, mm, nvdim, dtype, allow_field=True, depth=0):
         names = [k for k, _ in mm.subs]
         keys = [k for k in names if rng.random() < 0.7]
         d = {k: draw_spec(rng, st, mm, nvdim, dtype, False, 1) for k in keys}
+        if keys and dtype in (None, "float") and rng.random() < 0.08:
+            # NaN is a value like any other: the cells of that subregion hold it
+            nan = {"float": "nan"}
+            d[rng.choice(keys)] = {"t": "const", "v": nan if nvdim == 1 else [nan] + [1.0] * (nvdim - 1)}
+            st.stats.probe("dict_nan_value")
         for k in d:
             if d[k]["t"] == "array":
                 d[k] = {"t": "fn", "a": d[k]["a"]}
@@ -209,7 +221,7 @@ class ValuesProfile(FieldProfile):
             "p_fault": rng.choice([0.0, 0.1, 0.2, 0.3]),
             "max_cells": rng.choice([12, 60, 300]),
             "max_subs": rng.choice([0, 1, 3, 3]),
-            "dtypes": rng.choice([[None], [None, "float"], [None, "int", "complex", "float"]]),
+            "dtypes": rng.choice([[None], [None, "float"], [None, "int", "complex", "float"], [None, "bool", "int", "bool"]]),
             "p_norm": rng.choice([0.0, 0.1]),
         }
 
@@ -253,7 +265,7 @@ class ValuesProfile(FieldProfile):
         r = rng.random()
         if r < 0.4:
             spec = draw_spec(rng, st, mm, h.fm.nvdim, dtype)
-            if spec["t"] == "fn" and dtype in ("complex", "int"):
+            if spec["t"] == "fn" and dtype in ("complex", "int", "bool"):
                 spec = {"t": "array", "a": draw_table(rng)}
             if spec["t"] == "field" and spec["src"] == s:
                 spec = {"t": "array", "a": draw_table(rng)}
@@ -277,10 +289,10 @@ class NormProfile(FieldProfile):
     prop = "C15"
     name = "norm"
     predict = ("mesh", "array", "valid", "vdims", "mapping", "unit")
-    required_probes = ("update_after_norm",)
+    required_probes = ("update_after_norm", "norm_from_field_other_mesh")
     rule = (
         "one case = one seeded history (3-30 steps) mixing value updates, norm assignments (constant, per-cell array, function of "
-        "position, zeros in places), Field(..., norm=...), and reads of norm and orientation, on fields whose vector lengths are "
+        "position - a user function or a scalar field on a covering mesh -, zeros in places), Field(..., norm=...), and reads of norm and orientation, on fields whose vector lengths are "
         "exact zero, <=1e-10 or in [1e-6, 1e150]; distinct = distinct sequence of (op kind, outcome); non-trivial = at least 2 "
         "steps and at least one history oracle evaluation (a value update after an earlier norm assignment must store exactly the "
         "new specification)"
@@ -294,6 +306,7 @@ class NormProfile(FieldProfile):
             "pool": rng.randint(3, 7),
             "max_cells": rng.choice([12, 60, 200]),
             "mag": rng.choice(["unit", "wide", "zeros"]),
+            "norm_fields": rng.random() < 0.5,
         }
 
     def table(self, rng, cfg, nvdim):
@@ -321,6 +334,10 @@ class NormProfile(FieldProfile):
         if len(st.h) >= cfg["pool"]:
             return {"op": "drop", "on": min(st.h)}
         meshes, fields = st.slots("M"), st.slots("F")
+        queue = st.extra.get("queue")
+        if queue:
+            o = queue.pop(0)
+            return dict(o, out=out) if st.has(o["on"], "M") else None
         if not meshes:
             return self.ensure_mesh(rng, st, cfg["max_cells"], 0)
         if not fields or rng.random() < 0.12:
@@ -335,7 +352,17 @@ class NormProfile(FieldProfile):
         s = rng.choice(fields)
         h = st.h[s]
         r = rng.random()
+        if cfg.get("norm_fields") and rng.random() < 0.12:
+            # a scalar field with non-negative values on a mesh covering this field's mesh (same cell,
+            # or 2x / 3x coarser, possibly larger): later used as a position-dependent norm
+            cm = draw_cover_mesh(rng, h.box.v) if rng.random() < 0.6 else None
+            if cm is not None:
+                st.extra.setdefault("queue", []).append({"op": "F.construct", "on": out, "out": out + 1, "nvdim": 1, "dtype": None, "spec": {"t": "array", "a": {"kind": "rint", "seed": rng.randrange(2**31), "lo": 0 if rng.random() < 0.3 else 1, "hi": 7, "step": rng.choice([1.0, 0.5, 1e5])}}, "vdims": None, "unit": None})
+                return dict(cm, op="Mesh.new", out=out)
         if r < 0.35:
+            srcs = [x for x in fields if x != s and st.h[x].fm.nvdim == 1 and st.h[x].fm.array.dtype.kind == "f" and bool((st.h[x].fm.array >= 0).all()) and ops_field.field_covers(st, {"t": "field", "src": x}, h.box.v)] if cfg.get("norm_fields") else []
+            if srcs and rng.random() < 0.5:
+                return {"op": "F.setnorm", "on": s, "spec": {"t": "field", "src": rng.choice(srcs)}}
             return {"op": "F.setnorm", "on": s, "spec": self.norm_spec(rng, h.box.v)}
         if r < 0.4 and len(fields) > 1:
             return {"op": "F.update", "on": s, "spec": {"t": "arrayof", "src": rng.choice([x for x in fields if x != s])}, "via": rng.choice(["array", "update"])}
@@ -557,6 +584,8 @@ class ValidityProfile(FieldProfile):
         if r < 0.32:
             return {"op": "A.cplx", "on": a, "f": rng.choice(["real", "imag", "conjugate", "phase", "abs"]), "out": out}
         if r < 0.4:
+            if rng.random() < 0.3:
+                return {"op": "D.vcalc", "on": a, "f": rng.choice(["grad", "div", "curl", "laplace", "laplace"]), "out": out}
             return {"op": "D.diff", "on": a, "d": rng.randrange(nd), "order": rng.choice([1, 2]), "r2v": rng.random() < 0.7, "out": out}
         if r < 0.44:
             # a number on the left: 0 + f, 1 * f, ... are results like any other
